@@ -160,7 +160,7 @@ func runPath(i *interpreter, solver *Solver, fn *ssa.Function, item workItem, ex
 }
 
 // Explore runs harness fn to exhaustion (or until limits) with the given number of workers.
-func Explore(prog *ssa.Program, cfg *Config, fn *ssa.Function, workers, maxPaths int, budget time.Duration, solverTimeoutMs int, crossEvery int) *RunResult {
+func Explore(prog *ssa.Program, cfg *Config, fn *ssa.Function, workers, maxPaths int, budget time.Duration, solverTimeoutMs int, crossEvery int, solverKind string) *RunResult {
 	ex := &explorer{maxPaths: maxPaths, deadline: time.Now().Add(budget)}
 	ex.cond = sync.NewCond(&ex.mu)
 	ex.res = &RunResult{Harness: fn.String(), Outcomes: make(map[string]int), Covers: make(map[string]int)}
@@ -179,7 +179,7 @@ func Explore(prog *ssa.Program, cfg *Config, fn *ssa.Function, workers, maxPaths
 		wg.Add(1)
 		go func(w int) {
 			defer wg.Done()
-			solver, err := NewSolver(solverTimeoutMs)
+			solver, err := NewSolver(solverKind, solverTimeoutMs)
 			if err != nil {
 				ex.mu.Lock()
 				ex.inconc["cannot start solver: "+err.Error()] = true
